@@ -11,7 +11,9 @@ EXTENDS Naturals, FiniteSets
 TagClasses == {"dunder", "uri", "proxy", "daemon", "util_known", "util_unknown", "errors_pyro", "errors_other", "errors_missing",
                "struct_error", "exc_wrapper", "bare_builtin_exc", "bare_nonexc", "builtins_exc", "builtins_nonexc_class",
                "builtins_function", "builtins_dotted_tail", "exceptions_ns", "sqlite_error", "sqlite_other", "foreign_ns", "nodot",
-               "float_pseudo", "testlocal", "pyro_internal_other"}
+               "float_pseudo", "testlocal", "pyro_internal_other",
+               \* a tag that is empty or otherwise falsy, and a tag that is not text at all
+               "falsy", "nonstring"}
 Closed == {"URI", "Proxy", "Daemon", "Serializer", "ExcWrapper", "BuiltinException", "PyroError", "SqliteError", "StructError", "float"}
 \* classes whose tag alone (no exception flag needed) is honoured
 ByTagAlone(c) == CASE c = "uri" -> "URI" [] c = "proxy" -> "Proxy" [] c = "daemon" -> "Daemon" [] c = "util_known" -> "Serializer"
@@ -35,6 +37,6 @@ Spec == Init /\ [][Next]_<<c, flagged, registered, ser>>
 OnlyClosedSet == LET d == Decide(c, flagged, registered, ser) IN d.what = "instance" => d.cls \in Closed
 DunderNeverBuilt == (c = "dunder" /\ ~registered) => Decide(c, flagged, registered, ser).what = "error"
 ForeignNeverBuilt == (c \in {"foreign_ns", "testlocal", "builtins_function", "builtins_nonexc_class", "sqlite_other", "nodot", "bare_nonexc",
-                             "pyro_internal_other", "errors_other", "builtins_dotted_tail"} /\ ~registered)
+                             "pyro_internal_other", "errors_other", "builtins_dotted_tail", "falsy", "nonstring"} /\ ~registered)
                         => Decide(c, flagged, registered, ser).what = "error"
 =============================================================================
